@@ -101,7 +101,7 @@ def gen(i, tier):
     sizes["depth"] = (1 if tier == "quick" else 2) if fan else 0
     for _ in range(30):
         prog = E.GM.generate(rng, prof, sizes, with_timeout=0.3)
-        cfg = E.swarm_config(rng, POLICIES, ttls=(600, 3600))
+        cfg = E.swarm_config(rng, POLICIES, ttls=(600, 3600), transports=("asyncio", "asyncio", "blocking"))
         scn = E.scenario_of(prog, cfg, 1, rng.choice(["STANDARD", "EXPRESS"]))
         if rng.random() < 0.25:
             scn["faults"] = [{"kind": "stall", "node": 0, "at": rng.choice([0.0, 0.5, 1.0, 2.0, 4.0]),
@@ -312,6 +312,54 @@ def check_deadline(scn, seed, kind, expect_end):
                                 common.sha([scn["machines"], scn["script"], scn.get("faults")]))
 
 
+def gen_stalled_start(i):
+    """The start event reaches a busy (stalled) engine late: the first state's relative deadline still counts from the
+    instant the execution was started (the EnteredTime the front end stamped), on both front ends and in any time zone."""
+    seed = common.run_seed(8800000 + i)
+    rng = random.Random(seed)
+    w = rng.choice([3, 4, 6])
+    dur = rng.choice([0.5, 1.0, 2.5])
+    first = rng.choice(["wait", "wait", "task-timeout"])
+    if first == "wait":
+        states = {"A": {"Type": "Wait", "Seconds": w, "Next": "Z"}, "Z": {"Type": "Pass", "End": True}}
+    else:
+        states = {"A": {"Type": "Task", "Resource": F + "slow", "TimeoutSeconds": w, "End": True}}
+    cfg = {"policy": "latency", "latency": HOP, "execution_ttl": 600, "tz": rng.choice(["UTC0", "SIM-05:30", "SIM+03:00", "SIM-12:45"]),
+           "transport": rng.choice(["asyncio", "blocking"])}
+    scn = {"machines": {"m": {"definition": {"StartAt": "A", "States": states}, "type": rng.choice(["STANDARD", "EXPRESS"])}},
+           "executions": [{"machine": "m", "input": {"x": 1}, "name": "e1", "at": 0.0}], "script": {"slow": [{"noreply": True}]},
+           "functions": ["slow"], "config": cfg, "faults": [{"kind": "stall", "node": 0, "at": 0.05, "duration": dur}]}
+    return seed, scn, first, w
+
+
+def check_stalled_start(scn, seed, first, w):
+    res = run_scenario(scn, seed, horizon=700)
+    arn = res.exec_arns.get("e1")
+    t0 = timing.start_time(res, "e1")
+    findings = []
+    evs = res.world.terminal_events().get(arn, []) if arn else []
+    if not evs or t0 is None:
+        findings.append({"property": PROP, "rule": "never-terminal", "witness": None, "detail": "stalled start: %s" % res.end_reason})
+    else:
+        d = evs[0]["body"]["detail"]
+        te = evs[0]["published_at"] - t0
+        want = "SUCCEEDED" if first == "wait" else "FAILED"
+        # the end is published one hop after the deadline is handled; nothing else may delay or hasten it
+        if d["status"] != want or not (w - timing.TOL <= te <= w + 0.3):
+            findings.append({"property": PROP, "rule": "wait-instant" if first == "wait" else "task-timeout-instant",
+                             "witness": scn["config"]["transport"],
+                             "detail": "first state %s of %d s, start event handled late by a stalled engine (%s front end, TZ %s): "
+                                       "ended %s %r at t=%.3f after the start, expected %s at t=%d" % (
+                                           first, w, scn["config"]["transport"], scn["config"]["tz"], d["status"], d.get("error"),
+                                           te, want, w)})
+    if res.sim.errors:
+        findings.append({"property": PROP, "rule": "engine-exception", "witness": None, "detail": repr(res.sim.errors[0][:3])})
+    E.attach_replay(findings, scn, seed, res, {"kind": "stalled-start", "first": first, "w": w})
+    return common.summarize_run(res, PROP, findings, True, {"kind": "stalled-start"},
+                                {"stalled-start:" + first: 1, "stalled-start:" + scn["config"]["transport"]: 1, "stalled-runs": 1},
+                                common.sha([scn["machines"], scn["config"]["tz"], scn["config"]["transport"], scn["faults"]]))
+
+
 # Map batches: Wait / Task time-out as the FIRST state of an iterator, MaxConcurrency below the item count, optionally
 # the Map's own event delivered late: every iteration's deadline counts from the instant that iteration is started
 def gen_batches(i):
@@ -422,6 +470,9 @@ def run_one(item, extra):
     if isinstance(item, tuple) and item[0] == "deadline":
         seed, scn, kind, expect_end = gen_deadline(item[1])
         return check_deadline(scn, seed, kind, expect_end)
+    if isinstance(item, tuple) and item[0] == "stalled-start":
+        seed, scn, first, w = gen_stalled_start(item[1])
+        return check_stalled_start(scn, seed, first, w)
     if isinstance(item, tuple) and item[0] == "batches":
         seed, scn = gen_batches(item[1])
         return check(scn, seed)
@@ -439,6 +490,8 @@ def main(argv):
             r = run_offsets(rec["batch"], rec["form"])
         elif rec.get("kind") == "deadline":
             r = check_deadline(rec["scenario"], rec["seed"], rec["dkind"], rec["expect_end"])
+        elif rec.get("kind") == "stalled-start":
+            r = check_stalled_start(rec["scenario"], rec["seed"], rec["first"], rec["w"])
         else:
             r = check(rec["scenario"], rec["seed"])
         same = [f for f in r["findings"] if f["rule"] == rec["rule"]]
@@ -451,6 +504,7 @@ def main(argv):
     items = [("offsets", b, f) for f in forms for b in range(nb)] + list(range(n))
     items += [("deadline", k) for k in range(400 if tier == "quick" else 20000)]
     items += [("batches", k) for k in range(400 if tier == "quick" else 20000)]
+    items += [("stalled-start", k) for k in range(200 if tier == "quick" else 8000)]
     rep = common.Report(PROP)
     from checks import minimise as _MIN
     rep.minimiser = lambda f: _MIN.scenario(f, lambda scn, seed: check(scn, seed)) if f.get('kind') == 'generated' else f
